@@ -115,7 +115,7 @@ def main():
     #      sender only for ordinary messages; a bounce ("") and a double bounce ("#@[]") keep their sender, which is what lets
     #      qmail-send recognise and discard a failing double bounce further down the chain
     from C13 import Home
-    H = Home(rb)
+    H = Home(rb); drv13 = vlib.build_driver("C13")
     for owner in (None, ".qmail-pm-owner", ".qmail-pm-owner-default", ".qmail-default"):
         for snd in [b"", b"#@[]", b"s@x.example", b"#@[]x", b"#", b"#@[]-@[]"]:
             files = {".qmail-pm": ("file", 0o600, b"&admin@offsite.example\n")}
@@ -130,6 +130,11 @@ def main():
             elif owner == ".qmail-pm-owner-default": exp_s = b"pm-owner-@host.example-@[]"
             else: exp_s = b"pm-owner@host.example"
             exp_env = b"F" + exp_s + b"\0Tadmin@offsite.example\0\0"
+            # the extracted Local/Owner.v forward_sender on the same file population
+            o1 = "e" if has_owner else "a"; o2 = "e" if owner == ".qmail-pm-owner-default" else "a"
+            mfs, _, _ = vlib.run_lines(drv13, ["fws %s %s %s %s %s %s %s" % (vlib.hx(snd), vlib.hx(b"pm"), vlib.hx(b"host.example"), vlib.hx(b"-"), vlib.hx(b"pm"), o1, o2)])
+            if mfs[0] != "S " + vlib.hx(exp_s) and not (rc != 0 or envf != exp_env):
+                mism.append(dict(kind="configuration", fn="forward_sender", qmail_files=sorted(files), sender=snd.decode(), observed_envelope=None if envf is None else envf.decode("latin1"), model=mfs[0]))
             if rc != 0 or envf != exp_env:
                 key = "bounce:marker-sender-lost-in-forward" if snd in (b"", b"#@[]") else "bounce:forward-envelope"
                 fails.append((key, dict(kind="configuration", fn="qmail-local forward", qmail_files=sorted(files), sender=snd.decode(), exit=rc, stderr=err.decode("latin1")[:200],
